@@ -49,7 +49,7 @@ def gen_chart(rng, P):
   for i in range(1, n + 1):
     ds = descendants(par, i)
     init.append(rng.choice(ds) if ds and rng.random() < P["p_init"] else 0)
-  kinds = ["none"] * P["w_none"] + ["unh"] * P["w_unh"] + ["hook"] * P["w_hook"] + ["tran"] * P["w_tran"]
+  kinds = ["none"] * P["w_none"] + ["unh"] * P["w_unh"] + ["hook"] * P["w_hook"] + ["tran"] * P["w_tran"] + ["null"] * P.get("w_null", 0)
   react = []
   for i in range(1, n + 1):
     row = []
@@ -88,6 +88,12 @@ def gen_chart(rng, P):
     "live_spy": rng.random() < P["live"], "live_trace": rng.random() < P["live"],
     "clock": rng.choice(P["clocks"]),
   }
+  if chart["spied"] and host != "plain":
+    # return_status.NULL as an answer is only used on un-instrumented charts (what the spy and the trace make of it is unspecified)
+    for row in react:
+      for cell in row:
+        if cell[0] == "null":
+          cell[0] = "hook"
   # state-function names: unique (s1, s2, ..) or shared by several states (closures, undecorated wrappers: all called `state`)
   r = rng.random()
   if r < P["p_shared_names"] / 2:
@@ -114,6 +120,10 @@ def gen_ops(rng, chart, P):
   names = [k for k in w if w[k] > 0]
   for _ in range(rng.randint(*P["nops"])):
     k = rng.choices(names, [w[x] for x in names])[0]
+    if rng.random() < P.get("p_restart", 0.0) and not (chart["spied"] and host != "plain"):
+      # start_at again on the running chart (un-instrumented charts only: what spy and trace record for a second start is unspecified)
+      ops.append(["start", rng.randint(1, n)])
+      continue
     if k == "step":
       ops.append([rng.choice(["post_fifo", "post_lifo"]), rng.choice(sigs)])
       ops.append(["next_rtc"])
